@@ -29,6 +29,7 @@ func init() {
 		ruleAppendAlwaysEnqueues(c, "R06h")
 		ruleR06i(c)
 		ruleTxWrapperPropagates(c, "R06j")
+		ruleRunErrorIsReturned(c, "R06k")
 		ruleR05h(c)
 	})
 }
